@@ -15,6 +15,8 @@ pub struct Input {
     pub entry: &'static str, // bare | noschema | plain
     pub bytes: Vec<u8>,
     pub desc: String,
+    /// the reference decoder stops at a declared count of millions of elements that have no wire form
+    pub huge_count_of_empty_elements: bool,
 }
 
 fn put_u64(b: &mut Vec<u8>, off: usize, v: u64) {
@@ -217,23 +219,24 @@ pub fn inputs_for(s: &Subject, seed: u64, quick: bool) -> Vec<Input> {
             // allocation: inputs whose first defect is a declared length of millions of elements are left to the
             // native builds (which run them in address-space-limited children).
             muts.retain(|(b, _)| match model::decode(b, &shape, ver) {
-                Err(m) => !m.split(|c: char| !c.is_ascii_digit()).filter_map(|t| t.parse::<u128>().ok()).any(|n| n >= (1 << 22)),
+                Err(m) => !m.contains("absurd number of zero-sized") && !m.split(|c: char| !c.is_ascii_digit()).filter_map(|t| t.parse::<u128>().ok()).any(|n| n >= (1 << 22)),
                 Ok(_) => true,
             });
         }
         let hdr = super::c02::header(2, ver, false);
         for (i, (b, d)) in muts.into_iter().enumerate() {
+            let hz = matches!(model::decode(&b, &shape, ver), Err(m) if m.contains("absurd number of zero-sized"));
             let entry = match i % 4 {
                 0 | 1 => "bare",
                 2 => "noschema",
                 _ => "plain",
             };
             match entry {
-                "bare" => out.push(Input { entry: "bare", bytes: b, desc: d }),
+                "bare" => out.push(Input { entry: "bare", bytes: b, desc: d, huge_count_of_empty_elements: hz }),
                 "noschema" => {
                     let mut f = hdr.clone();
                     f.extend_from_slice(&b);
-                    out.push(Input { entry: "noschema", bytes: f, desc: d });
+                    out.push(Input { entry: "noschema", bytes: f, desc: d, huge_count_of_empty_elements: hz });
                 }
                 _ => {
                     // real schema section (from a valid file) followed by the mutated payload
@@ -241,7 +244,7 @@ pub fn inputs_for(s: &Subject, seed: u64, quick: bool) -> Vec<Input> {
                         if file.len() >= payload.len() && file.ends_with(&payload) {
                             let mut f = file[..file.len() - payload.len()].to_vec();
                             f.extend_from_slice(&b);
-                            out.push(Input { entry: "plain", bytes: f, desc: d });
+                            out.push(Input { entry: "plain", bytes: f, desc: d, huge_count_of_empty_elements: hz });
                         }
                     }
                 }
@@ -274,7 +277,7 @@ pub fn inputs_for(s: &Subject, seed: u64, quick: bool) -> Vec<Input> {
                             what = "picked byte";
                         }
                     }
-                    out.push(Input { entry: "plain", bytes: f, desc: format!("schema section byte {} {}", p, what) });
+                    out.push(Input { entry: "plain", bytes: f, desc: format!("schema section byte {} {}", p, what), huge_count_of_empty_elements: false });
                 }
             }
         }
@@ -405,9 +408,15 @@ pub fn run(ctx: &mut Ctx, reg: &Registry) {
         let inputs = inputs_for(s, ctx.seed, ctx.quick());
         let mut jf = std::fs::OpenOptions::new().create(true).append(true).open(&journal).ok();
         let stop: usize = std::env::var("VH_C06_STOP").ok().and_then(|x| x.parse().ok()).unwrap_or(usize::MAX);
+        let skip_hz = std::env::var("VH_C06_SKIP_HZ").is_ok();
         for (i, inp) in inputs.iter().enumerate().skip(skip) {
             if i >= stop {
                 break;
+            }
+            if skip_hz && inp.huge_count_of_empty_elements {
+                // one such input was already reported as non-terminating for this type: the others differ only in the count
+                ctx.count("inputs_skipped_same_nontermination");
+                continue;
             }
             if i % 97 == 5 {
                 ctx.sample("input", J::obj(vec![("type", J::s(s.label.clone())), ("entry_point", J::s(inp.entry)), ("mutation", J::s(inp.desc.clone())), ("input_hex", J::s(hex_trunc(&inp.bytes, 64)))]));
@@ -456,6 +465,7 @@ fn run_children(ctx: &mut Ctx, s: &Subject) {
     let journal = format!("{}/vh_c06_{}.journal", dir, tag);
     let report = format!("{}/vh_c06_{}.json", dir, tag);
     let mut skip = 0usize;
+    let mut skip_hz = false;
     let mut restarts = 0;
     loop {
         let _ = std::fs::remove_file(&journal);
@@ -479,6 +489,7 @@ fn run_children(ctx: &mut Ctx, s: &Subject) {
                 .arg(&cmd)
                 .env("VH_C06_CHILD", &s.label)
                 .env("VH_C06_SKIP", skip.to_string())
+                .envs(if skip_hz { vec![("VH_C06_SKIP_HZ", "1")] } else { vec![] })
                 .env("VH_C06_JOURNAL", &journal)
                 .stdout(std::process::Stdio::null())
                 .stderr(ef)
@@ -492,7 +503,7 @@ fn run_children(ctx: &mut Ctx, s: &Subject) {
         // (a logical measure that does not depend on machine load): a child that burns `limit` CPU seconds
         // on one input is killed and that input is reported as non-terminating. Wall-clock time only bounds
         // the run: exceeding it without having used the CPU budget is inconclusive, never a violation.
-        let limit = std::time::Duration::from_secs(if ctx.quick() { 120 } else { 300 });
+        let limit = std::time::Duration::from_secs(if ctx.quick() { 60 } else { 120 });
         let wall_limit = limit * 8;
         let pid = childp.id();
         let cpu_secs = |pid: u32| -> f64 {
@@ -584,7 +595,12 @@ fn run_children(ctx: &mut Ctx, s: &Subject) {
         if hung {
             if let Some(inp) = inputs.get(culprit) {
                 ctx.violation(
-                    "C06:does-not-return",
+                    if inp.huge_count_of_empty_elements {
+                        skip_hz = true;
+                        "C06:does-not-return[huge-count-of-empty-elements]"
+                    } else {
+                        "C06:does-not-return"
+                    },
                     &s.label,
                     J::obj(vec![
                         ("type", J::s(s.label.clone())),
